@@ -293,6 +293,8 @@ def jobs_for(pid, tier, seed):
         J.append(mfam('2 tasks + resize/close: user code only inside operations', ['C08'], 5 if q else 7, tasks=2, env={'create': OE, 'recycle': OE}, ctl=('resize', 'close', 'status'), probe=False))
         J.append(mfam('2 tasks: an object returned while another get() is suspended in a recycle that is then rejected', ['C08'], 6 if q else 8, tasks=2, max_size_concrete=2,
                       env={'create': ('ok',), 'recycle': ('ok', 'err', 'pending')}, cancel=False, take=False, probe=False))
+        J.append(mfam('the last pool handle is dropped with idle objects and objects out (with and without close): the manager is not called from there', ['C08'], 5 if q else 6, tasks=2, max_size_concrete=2,
+                      prefix=(('get', 'T1', 0), ('get', 'T2', 0), ('drop', 'T1', 0)), env={'create': ('ok',), 'recycle': ('ok',)}, ctl=('close', 'drop_pool'), max_ctl=2, max_gets=2, cancel=False, probe=False, lifo=False))
         P3 = (('get', 'T1', 0), ('get', 'T2', 0), ('get', 'T3', 0))
         J.append(mfam('3 objects out, returned in any order, then gets with rejects (max_size 3)', ['C08'], 7 if q else 9, tasks=3, max_size_concrete=3, prefix=P3,
                       env={'create': ('ok',), 'recycle': OE}, cancel=False, take=False, probe=False))
